@@ -142,7 +142,7 @@ KN = ('MVoro.Proofs.Aux20', 'MVoro.KnnProofs')
 def kn(name, orig, doc): return (name, KN[0], KN[1], orig, doc)
 SP = ('MVoro.Proofs.Aux20', 'MVoro.SphereProofs')
 def sp(name, orig, doc): return (name, SP[0], SP[1], orig, doc)
-prop('C20', 'auxiliary structures return exact nearest neighbours and enclosing spheres', ['MVoro.Proofs.Aux20', 'MVoro.Proofs.MEBProofs', 'MVoro.Proofs.KnnCorrect', 'MVoro.Proofs.GridWF'], [
+prop('C20', 'auxiliary structures return exact nearest neighbours and enclosing spheres', ['MVoro.Proofs.Aux20', 'MVoro.Proofs.MEBProofs', 'MVoro.Proofs.KnnCorrect', 'MVoro.Proofs.GridWF', 'MVoro.Proofs.RingWF', 'MVoro.Proofs.KnnFull'], [
   kn('cell_lower_bound', 'minDist2_lower_bound', 'T20.1 `min_distance_squared` of a grid cell is a lower bound of the squared distance to every point inside the cell (needs the cell extent loc .. loc+width componentwise)'),
   kn('closest_loc_in_cell', 'closestLoc_inBox', 'T20.1 `closest_loc` lies in the cell'),
   kn('bounded_heap_insert', 'insertK_spec', 'T20.1 one insertion into the bounded heap keeps "the k smallest distances seen so far, ascending"'),
@@ -154,7 +154,14 @@ prop('C20', 'auxiliary structures return exact nearest neighbours and enclosing 
   ('ring_loop_correct', 'MVoro.Proofs.KnnCorrect', 'MVoro.KnnCorrect', 'knnLoop_correct', 'T20.1 hence the result is sorted by distance, has min(k, number of candidates) entries, its distances are the k smallest, and every entry is a real candidate'),
   ('ring_loop_eq_brute_force', 'MVoro.Proofs.KnnCorrect', 'MVoro.KnnCorrect', 'knnLoop_eq_spec', 'T20.1 if moreover the cells of the rings hold every particle exactly once, the distances returned are those of the brute-force specification `knnSpec` (k nearest OTHER particles, increasing)'),
   ('space_new_builds_a_wellformed_grid', 'MVoro.Proofs.GridWF', 'MVoro.GridWF', 'mkSpace_gridOK', 'T20.1 Space::new (componentwise placement): for a box of positive extents, a positive maximal cell width and particles inside the half-open box the grid certificate holds: non-negative cell widths, every particle registered in a cell lies in the box of that cell (binning by floor brackets the coordinate), the cells hold every particle exactly once (row-major index arithmetic)'),
-  ('space_new_meets_the_hypotheses_of_the_ring_loop', 'MVoro.Proofs.GridWF', 'MVoro.GridWF', 'mkSpace_wellformed', 'T20.1 hence hbox and the partition property assumed by knnLoop_eq_spec hold for the grid of Space::new; the ring hypotheses hend / hfar (index arithmetic of get_r_ring) remain assumptions'),
+  ('space_new_meets_the_hypotheses_of_the_ring_loop', 'MVoro.Proofs.GridWF', 'MVoro.GridWF', 'mkSpace_wellformed', 'T20.1 hence hbox and the partition property assumed by knnLoop_eq_spec hold for the grid of Space::new'),
+  ('get_r_ring_is_the_chebyshev_ring', 'MVoro.Proofs.RingWF', 'MVoro.RingWF', 'mem_ring', 'T20.1 get_r_ring(cid, r) lists exactly the cells of the grid whose index triple is at Chebyshev distance r from that of cid (r = 0: the cell itself)'),
+  ('get_r_ring_lists_each_cell_once', 'MVoro.Proofs.RingWF', 'MVoro.RingWF', 'nodup_ring', 'T20.1 ... each once'),
+  ('rings_end', 'MVoro.Proofs.RingWF', 'MVoro.RingWF', 'ring_empty', 'T20.1 from ring cx + cy + cz on the rings are empty (hypothesis hend of the ring loop; the loop has fuel cx + cy + cz + 2)'),
+  ('farther_rings_are_farther', 'MVoro.Proofs.KnnFull', 'MVoro.KnnFull', 'far_bound', 'T20.1 a particle registered in a cell at Chebyshev index distance >= r + 1 is at least dist_to_face + r * min width away (hypothesis hfar: ring_bound_3d composed over the ring structure and the binning)'),
+  ('rings_partition_the_particles', 'MVoro.Proofs.KnnFull', 'MVoro.KnnFull', 'rings_perm', 'T20.1 the cells of the rings around any cell hold every particle exactly once (hypothesis hpart)'),
+  ('knn_entries_on_the_grid_of_space_new', 'MVoro.Proofs.KnnFull', 'MVoro.KnnFull', 'knnLoop_mkSpace_entries', 'T20.1 every returned pair is (squared distance to particle q, q) for another particle q < n, the list is sorted by distance and has min(k, n - 1) entries'),
+  ('knn_on_the_grid_of_space_new_is_brute_force', 'MVoro.Proofs.KnnFull', 'MVoro.KnnFull', 'knn_mkSpace_eq_spec', 'T20.1 at full strength for the model: knn on the grid that Space::new builds equals knnSpec (the k nearest OTHER particles in increasing distance) for every k >= 1, every box of positive extents, every positive maximal cell width and all particles inside the half-open box'),
   kn('pinned_placement_breaks_lower_bound', 'pinned_lower_bound_fails', 'T20.1 (negative) with `c_width.x` on all axes (the pinned tree) a particle lies outside the extent of its cell and the lower bound fails'),
   kn('pinned_placement_wrong_answer', 'pinned_knn_ne_spec', 'T20.1 (negative) concrete non-cubic box on which the pinned placement returns a wrong nearest neighbour; the componentwise placement returns the right one'),
   sp('certificate_implies_minimal', 'minimal_of_certificate_V3', 'T20.3 a ball containing all points whose centre is a convex combination of points on its boundary is the minimal enclosing ball'),
